@@ -1161,6 +1161,12 @@ def c17(tier):
     gbehs, gen, _ = vcore.tlc_simulate("Admin.tla", os.path.join(vcore.SPEC, "GEN_Admin.cfg"), 400 if thorough else 25, 16, SEED)
     rep.transitions += gen
     generic_replay(rep, "admin-replay", gbehs, {}, "c17", "admin-replay")
+    # wide databases: 10..13 columns of mixed kinds, so that column numbers have two digits (order of the metadata
+    # lines, file-name prefixes col 1 / col 10, add_column of an 11th column)
+    wbehs, gen, _ = vcore.tlc_simulate("Admin.tla", os.path.join(vcore.SPEC, "GEN_Admin_wide.cfg"), 120 if thorough else 6, 12, SEED + 5)
+    rep.transitions += gen
+    rep.extra["wide_database_behaviours"] = len(wbehs)
+    generic_replay(rep, "admin-replay", wbehs, {}, "c17w", "admin-replay")
     return rep.finish()
 
 
